@@ -13,7 +13,7 @@ RULE = ('every BaseException subclass found in builtins, constructed with repres
         'non-callable attribute, the traceback (raising frame present), the message (original text + one "In call to configurable" per level); '
         'non-Exception BaseExceptions must pass through untouched. distinct = (exception class, depth, raise site)')
 TIERS = {
-    'quick': {'workers': 8, 'cases': 450, 'timeout': 600},
+    'quick': {'workers': 8, 'cases': 1800, 'timeout': 600},
     'thorough': {'workers': 16, 'cases': 8000, 'timeout': 3000},
 }
 REQUIRED_BUCKETS = ['cls:OSError-family', 'cls:StopIteration', 'cls:UnicodeError', 'cls:SyntaxError', 'cls:ImportError', 'cls:AttributeError', 'cls:KeyError',
